@@ -19,7 +19,7 @@ def on(v, dom):
 
 def domain_val(name, kind="array"):
     if kind == "array":
-        v = arr(name, S("D@" + name), U_LAMBDA, isnum=False)
+        v = arr(name, S("D@" + name), U_LAMBDA, isnum=False, point=True)
     else:
         v = num(name, U_LAMBDA, sign="POS")
     v.tags["domain_id"] = name
